@@ -166,4 +166,10 @@ func VerifC19RequiredFaithful() {
 	q4 := NewProperty(nil, PropertyTypeComponent, "wire", "v,required=false")
 	q4.Args().Set(ArgRequired, "true")
 	nd.Assert(q4.IsRequired(), "C19: only an explicit required=false makes a point optional (it was replaced through Args())")
+	// only the case of the FIRST letter of an argument name is ignored
+	q5 := NewProperty(nil, PropertyTypeComponent, "wire", "v,reQuired=false")
+	nd.Assert(q5.IsRequired(), "C19: an argument name that differs from 'required' after its first letter is another argument")
+	q6 := NewProperty(nil, PropertyTypeComponent, "wire", "v,timeLayout=a,timelayout=b")
+	tl, _ := q6.Args().Find("timeLayout")
+	nd.Assert(len(q6.Args()) == 2 && len(tl) == 1 && tl[0] == "a", "C19: argument names that differ after their first letter are different arguments")
 }
